@@ -7,13 +7,14 @@ LEMMAS = ['cat', 'dog', 'Dog', 'run', 'résumé', 'resume', 'Resume', 'hot dog',
           'x<y', 'a&b', 'say "hi"', "it's", 'tab\there', '𝒳', 'cats', 'ran', 'running', 'bank']
 FORMS = ['cats', 'dogs', 'ran', 'running', 'résumés', 'Cats', 'hot dogs', '猫', 'x<ys', 'banks', 'cat']
 TEXTS = ['a small animal', 'to move fast', 'x < y & z', 'say "hi" and \'bye\'', 'ünï cödé 𝒳', 'a', 'two words',
-         'with ]]> inside', 'a small animal']
+         'with ]]> inside', 'a small animal', 'see <Lexicon id="z" version="9"> there']
 POS = ['n', 'v', 'a', 's', 'r']
 SYNRELS = ['hypernym', 'hyponym', 'instance_hypernym', 'similar', 'antonym', 'also', 'mero_part', 'holo_part', 'xrel']
 SENRELS = ['antonym', 'derivation', 'also', 'similar', 'pertainym', 'xrel']
 SENSYNRELS = ['domain_topic', 'other', 'exemplifies', 'xrel']
 SCRIPTS = ['Latn', 'Jpan', 'Hira']
-ATTRTEXT = ['plain', 'q"uote', "a'pos", 'lt<gt>', 'amp&', 'tab\tnl\nend', 'ünï𝒳']
+ATTRTEXT = ['plain', 'q"uote', "a'pos", 'lt<gt>', 'amp&', 'tab\tnl\nend', 'ünï𝒳',
+            'see version="2" there', "id='zz' inside", 'label = "other"', '<Extends id="n" version="0">']
 
 
 def meta(rng, p=0.3):
@@ -36,7 +37,7 @@ def gen_lexicon(rng, lid, version, lang, ilis, lmfv, size=4, requires=None):
     lex = {'id': lid, 'label': rng.choice(['Label of ' + lid, 'L & "q" <' + lid + '>']), 'language': lang,
            'email': 'a@b.c', 'license': rng.choice(['CC-BY', 'https://l/?a=1&b=2']), 'version': version,
            'meta': meta(rng), 'entries': [], 'synsets': []}
-    maybe(rng, lex, 'url', 'https://ex.org/' + lid)
+    maybe(rng, lex, 'url', rng.choice(['https://ex.org/' + lid, 'https://ex.org/?version="3"', "http://x/id='y'"]))
     maybe(rng, lex, 'citation', rng.choice(ATTRTEXT), 0.3)
     if v11:
         maybe(rng, lex, 'logo', 'logo.svg', 0.3)
